@@ -418,6 +418,10 @@ func executorFindInsertionPoints(ctx *ExecutionContext, resultLock *sync.Mutex, 
 
 			// each value in the result contributes an insertion point
 			for entryI, iEntry := range rootList {
+				// a null element has nothing to join onto (and nothing to scrub)
+				if iEntry == nil {
+					continue
+				}
 				resultEntry, ok := iEntry.(map[string]interface{})
 				if !ok {
 					return nil, errors.New("entry in result wasn't a map")
